@@ -105,6 +105,27 @@ pub fn run(reg: &dyn Registry, ctx: &Ctx) -> Outcome {
                 Err((w, replay)) => ctx.violation(&format!("C03:{}:stream-long", name), &format!("{}: {}", name, w), replay),
             }
         }
+        // deep runs (thorough): 2^30 words from 8 dense seeds
+        if thorough {
+            let deep = chain_seeds(ty, ctx.seed ^ 0x3D, 8);
+            let words = 1usize << 30;
+            let res: Vec<_> = deep
+                .par_iter()
+                .map(|s| {
+                    let mk = |w: String, pos: usize| (w, json!({"kind":"stream","type":name,"seed":hex(s),"position":pos,"words":words}));
+                    let mut g = from_seed_guarded(ty, s).map_err(|e| mk(e, 0))?;
+                    let mut m = if is64 { Model::I64(Isaac64::from_seed_bytes(s)) } else { Model::I32(Isaac::from_seed_bytes(s)) };
+                    compare(&mut g, &mut m, is64, words, &mk)
+                })
+                .collect();
+            ctx.add("long_seeds", deep.len() as u64);
+            for r in res {
+                match r {
+                    Ok(n) => ctx.add("words_compared", n),
+                    Err((w, replay)) => ctx.violation(&format!("C03:{}:stream-deep", name), &format!("{}: {}", name, w), replay),
+                }
+            }
+        }
         // every triple of seed bits, first block + 8 words
         {
             let n = 256;
